@@ -33,6 +33,11 @@ func vC07Build(client bool, mode int, tag string, n int, midEvent int, probe boo
 		payload := vStored(x.data, []int{n}, false)
 		switch midEvent {
 		case 0:
+			if vParam("bfinal", 1) == 1 && vChoose("bfinal", 2) == 1 {
+				// the peer ends its DEFLATE stream with a final block (other implementations do): another way to the
+				// end of the message through the reader's resource handling
+				payload = vStored(x.data, []int{n}, true)
+			}
 			frames = vDataFrames(payload, nil, 2, true, client)
 		case 1: // fragmented with a peer Close frame in the middle of the message
 			fs := vDataFrames(payload, []int{len(payload) - 2}, 2, true, client)
